@@ -29,6 +29,8 @@ class TableSuite(S.Suite):
         return ["pure"]      # table.py does not touch the compiled module
 
     def compare_line(self, line, model):
+        if line.get("oracle_only"):
+            return []          # an input outside the model's language (e.g. fractional range bounds): oracle only
         if line["op"] == "exprcol":
             return []          # numpy's elementwise arithmetic is a parameter of the model: oracle only
         if line["op"] == "derive" and line.get("then"):
